@@ -84,6 +84,8 @@ class Interp:
         self.obligations = []                # filled by final pass
         self.call_args = []                  # (block, callee id, [arg (lo,hi,prov)]) for interprocedural join
         self.call_cells = []                 # (block, callee id, {(param, suffix): (lo, hi)}) integer cells below reference arguments
+        self.closure_caps = []               # (closure def id, {(capture index, by reference): (lo, hi, ty)}) at each creation site
+        self.entry_keys = (param_iv or {}).get("#cellkeys") or {}
         self.post_cells = {}                 # (param, suffix) -> (lo, hi): integer cells below `&mut` parameters at every return
         self.entry_cells = (param_iv or {}).get("#cells") or {}
         self.ret_cells = {}                  # path -> (lo, hi, prov) joined over return blocks
@@ -314,9 +316,36 @@ class Interp:
         return None, None
 
     # ---- transfer: statements -------------------------------------------------------
+    def note_closure(self, st, b, i, rv):
+        """intervals of the integers a closure captures (by value, or by reference to a tracked cell) at its creation"""
+        caps = {}
+        for ci, o in enumerate(rv.get("ops", [])):
+            pl = op_place(o)
+            if pl is None:
+                continue
+            if pl["ty"].startswith("&mut "):
+                continue          # the closure (or an earlier call of it) may change the captured variable
+            if pl["ty"].startswith("&"):
+                tgt = self.ref_target(st, o)
+                sid = st.cells.get(tgt) if tgt is not None else None
+                byref = True
+            else:
+                sid = st.cells.get(self.norm_target(st, place_key(pl)))
+                byref = False
+            if sid is None:
+                continue
+            lo, hi = self.iv(st, sid)
+            rng = ty_range(self.syms[sid].ty or "")
+            if lo is None or rng is None or (lo <= rng[0] and hi >= rng[1]):
+                continue
+            caps[(ci, byref)] = (lo, hi, self.syms[sid].ty)
+        self.closure_caps.append((rv.get("def"), caps))
+
     def assign(self, st, b, i, s):
         pl = s["place"]
         rv = s["rv"]
+        if self.collect and rv["k"] == "agg" and rv.get("ak") == "closure":
+            self.note_closure(st, b, i, rv)
         key = self.norm_target(st, place_key(pl))
         at = (b, i)
         if "deref" in key[1:] and not self.stable_root(key):
@@ -1746,6 +1775,10 @@ class Interp:
                 sid = self.new_sym(("param", l), lo, hi, frozenset(["P%d" % l]), None, ty)
                 st.cells[(l,)] = sid
                 st.iv[sid] = (lo, hi)
+        for key, (lo, hi, ty_) in self.entry_keys.items():
+            sid = self.new_sym(("entrykey", key), lo, hi, frozenset(["P1"]), None, ty_)
+            st.cells[key] = sid
+            st.iv[sid] = (lo, hi)
         for (l, suffix), (lo, hi, ty_) in self.entry_cells.items():
             key = (l, "deref") + tuple(suffix)
             sid = self.new_sym(("entrycell", key), lo, hi, frozenset(["P%d%s" % (l, "".join(x for x in suffix if x != "deref"))]), None, ty_)
@@ -1802,6 +1835,7 @@ class Interp:
         self.obligations = []
         self.call_args = []
         self.call_cells = []
+        self.closure_caps = []
         self._ret_seen = False
         self.ret_cells = {}
         self.post_cells = {}
